@@ -41,7 +41,7 @@ NREG = 10
 CTORS = ['ni', 'nf', 'ns', 'np', 'na', 'na', 'na', 'nl', 'nl', 'nt', 'nt', 'nr', 'nr', 'nu', 'nR', 'ng', 'nn', 'nn']
 MUT = ['pu', 'pu', 'ap', 'pa', 'pa', 'po', 'pt', 'se', 'se', 'rm', 'rm', 'so', 'rs', 'cl', 'cc', 'as', 'sw', 'cp', 'el', 'el', 'el', 'el']
 OBS = ['ge', 'ge', 'me', 'ln', 'ha', 'it', 'it', 'ib', 'sl', 'rv', 'zp', 'en', 'fi', 'ma', 'ty', 'sh', 'de', 'ci', 'cm', 'lk', 'iq']
-FREE = ['tc', 'tc', 'tn', 'rg', 'fm', 'fm', 'fm', 'sn', 'ca', 'gc', 'gc', 'D', 'D', 'dr', 'dr', 'dl', 'dl', 'th', 'mx', 'fl', 'hp', 'tf', 'tf', 'rw', 'sk', 'sk']
+FREE = ['tc', 'tc', 'tn', 'rg', 'fm', 'fm', 'fm', 'sn', 'ca', 'gc', 'gc', 'D', 'D', 'dr', 'dr', 'dl', 'dl', 'th', 'mx', 'fl', 'hp', 'tf', 'tf', 'rw', 'sk', 'sk', 'mm', 'mm', 'mm']
 
 
 def rint(rng):
@@ -210,6 +210,8 @@ def gen_wl(rng, nops):
                 if op == 'dl':      # the harness clears the Refs to a deleted object; which ones is not tracked here
                     for q in [q for q, kd in kinds.items() if kd == 'Ref']:
                         pass
+            elif op == 'mm':
+                toks.append('mm:%d,%d,%d' % (rng.randrange(16), rng.randrange(0, 64), rint(rng)))
             elif op == 'tf':
                 c = [q for q, kd in kinds.items() if kd.split(':')[0] in ('Array', 'List', 'Table', 'Tree')]
                 toks.append('tf:%d,%d' % (rng.choice(c) if c else reg, rint(rng)))
@@ -520,6 +522,9 @@ def join(pre, toks):
 
 
 CORPUS_WL = [
+    # seed C18-r4-2: manual memory management, every destructor path with boundary contents (emptied Box, …)
+    'wl|' + ' '.join('mm:%d,%d,%d' % (k, 5 + 3 * k, 7 + k) for k in range(16)) + ' gc D',
+    'wl|mm:0,1,1 mm:1,63,5 mm:2,0,4 mm:1,21,0 mm:3,9,4 mm:4,9,0 mm:6,3,1 mm:6,3,0 mm:7,2,0 mm:7,2,4 mm:11,4,0 mm:12,8,3 mm:13,1,1 mm:14,2,2 gc D',
     # seed C18-r2-2: concat / append / assign / resize / print_to on Strings that live inside containers
     'wl|na:0,2,5,3 nl:1,2,4,7 nt:2,1,2,6,4 nr:3,0,2,5,9 el:0,0,2,5,1 el:0,1,3,6,1 el:1,2,2,7,1 el:1,0,0,8,1 el:2,1,2,9,1 el:2,3,4,3,1 '
     'el:3,2,3,4,1 el:3,0,5,2,1 el:0,3,6,11,1 el:1,1,7,12,1 el:0,2,8,13,1 it:0 it:1 it:2 it:3 gc D',
@@ -549,7 +554,7 @@ def run(ctx):
     extra = [c for c in (EXTRA_QUICK if quick else EXTRA_THOROUGH) if len(c) < 5 or _sh.which(c[4])]
     cfgs = ALL + extra
     ctx.cov['rule'] = (
-        'workload stream: seeded register-machine programs (3-7 constructors, then %s operations drawn from 80 kinds: '
+        'workload stream: seeded register-machine programs (3-7 constructors, then %s operations drawn from 81 kinds (one of them, `mm`, is 16 manual-memory scenarios: every object deleted exactly once, destructor ledger in the transcript): '
         'Array/List/Table/Tree/Tuple/String/Int/Float/user-type construction, push/push_at/pop/pop_at/get/set/mem/rem/'
         'sort/sort_by/resize/concat/append/assign/copy/swap/cmp/hash, forward and backward iteration, slice/reverse/zip/'
         'enumerate/filter/map/range views, print_to formatting of every conversion class, scan_from round trip, Function '
